@@ -167,9 +167,11 @@ def parse_text(s):
 
 
 def canon(t, key=None):
-    """order-insensitive parts: a HashSet is written in arbitrary order"""
+    """order-insensitive parts: a HashSet is written in arbitrary order, and the order in which a struct's fields
+    (or a map's keys) are written is not part of any property - the loader accepts every order - so objects are
+    compared as key -> value maps (keys sorted; a repeated key stays repeated)"""
     if isinstance(t, Obj):
-        return Obj([(k, canon(v, k)) for k, v in t.kv])
+        return Obj(sorted(((k, canon(v, k)) for k, v in t.kv), key=lambda kv: (isinstance(kv[0], str), str(kv[0]) if isinstance(kv[0], str) else kv[0])))
     if isinstance(t, list):
         l = [canon(x) for x in t]
         if key == "week_mask":
@@ -303,6 +305,7 @@ def gen_fx(rng, fl):
     kinds = rng.choice([(0,), (0,), (1,), (2,), (0, 1), (0, 2)])
     settle = rng.choice([None, None, dn(2004, 1, 1), dn(2024, 6, 19)])
     o = [n - 1]
+    quoted = []
     for i in range(1, n):
         a, b = cs[rng.randrange(i)], cs[i]
         if rng.random() < 0.5:
@@ -312,11 +315,23 @@ def gen_fx(rng, fl):
         x = abs(fl(rng)) or 1.0
         num = gen_number(rng, lambda r, x=x: x if r.random() < 0.6 else abs(fl(r)) or 1.5, kinds)
         o += enc_name(a) + enc_name(b) + num + ([1, settle] if settle is not None else [0])
+        quoted.append((a, b, settle))
     if rng.random() < 0.5:
         o += [1] + enc_name(rng.choice(cs))
     else:
         o += [0]
     o += [rng.choice([0, 1, 1, 2])]
+    # history: 40% of the markets are re-marked through `update` (1..n-1 of their own pairs, new values, sometimes
+    # with the pair given the other way round = refused) before they are saved
+    upd = []
+    if rng.random() < 0.4:
+        for (a, b, st) in rng.sample(quoted, rng.randint(1, len(quoted))):
+            x = abs(fl(rng)) or 1.25
+            num = gen_number(rng, lambda r, x=x: x, kinds)
+            upd.append(enc_name(a) + enc_name(b) + num + ([1, st] if st is not None else [0]))
+    o += [len(upd)]
+    for u in upd:
+        o += u
     return o
 
 
@@ -437,7 +452,7 @@ SCALARS = [None, True, 0, 1, -1, 3, 2.5, "", "zz", "Mon", "usd", [], Obj([]), Da
 TAGS = KINDS + ["F64", "Foo", "Linear", "Null", "Cal", "NamedCal"]
 
 MUTATIONS = ["delete", "duplicate", "retype", "length", "empty", "calname", "variant", "tag", "shuffle", "swapnodes",
-             "ccy", "intfield", "dropfirst", "extrakey", "asarray"]
+             "ccy", "intfield", "dropfirst", "extrakey", "asarray", "reshape", "reshape", "resize"]
 
 
 def mutate(rng, t):
@@ -530,6 +545,40 @@ def mutate(rng, t):
         p, s = rng.choice(objs)
         j = rng.randrange(len(s.kv) + 1)
         return set_at(t, p, Obj(s.kv[:j] + [(rng.choice(["zz", "v", "extra", 7]), rng.choice(SCALARS))] + s.kv[j:])), "unknown key"
+    if kind in ("reshape", "resize"):
+        # ndarray documents {"v":1,"dim":[..],"data":[..]}: changes that keep ndarray's own element-count check
+        # satisfied but break the relation with the owner's other fields (vars, n)
+        nds = [(p, s) for p, s in objs if isinstance(s.get("dim"), list) and isinstance(s.get("data"), list)
+               and all(isinstance(d, int) and not isinstance(d, bool) for d in s.get("dim"))]
+        if nds:
+            p, s = rng.choice(nds)
+            dim, data = list(s.get("dim")), list(s.get("data"))
+            tot = len(data)
+            if kind == "reshape":
+                cands = [[1, tot], [tot, 1], [tot], list(reversed(dim))]
+                if len(dim) == 2 and tot % 2 == 0 and tot >= 2:
+                    cands += [[2, tot // 2], [tot // 2, 2]]
+                cands = [c for c in cands if c != dim]
+                if cands:
+                    new = rng.choice(cands)
+                    kv = [(k, (new if k == "dim" else v)) for k, v in s.kv]
+                    return set_at(t, p, Obj(kv)), "reshape dim %s -> %s (same element count)" % (dim, new)
+            else:
+                if len(dim) == 1:
+                    if data and rng.random() < 0.5:
+                        nd, ndata = [dim[0] - 1], data[:-1]
+                    else:
+                        nd, ndata = [dim[0] + 1], data + [data[-1] if data else 1.5]
+                elif len(dim) == 2 and dim[1] > 0:
+                    if dim[0] > 0 and rng.random() < 0.5:
+                        nd, ndata = [dim[0] - 1, dim[1]], data[:-dim[1]]
+                    else:
+                        nd, ndata = [dim[0] + 1, dim[1]], data + data[-dim[1]:]
+                else:
+                    nd, ndata = None, None
+                if nd is not None:
+                    kv = [(k, (nd if k == "dim" else ndata if k == "data" else v)) for k, v in s.kv]
+                    return set_at(t, p, Obj(kv)), "consistent resize of an array %s -> %s" % (dim, nd)
     if kind == "asarray" and objs:
         p, s = rng.choice(objs)
         return set_at(t, p, [v for _, v in s.kv]), "struct as array"
